@@ -1269,6 +1269,9 @@ def create_junctions(net, nr_junctions, pn_bar, tfluid_k, height_m=0, name=None,
     """
     add_new_component(net, Junction)
 
+    if index is not None and len(index) != nr_junctions:
+        raise UserWarning("The number of passed indices (%d) differs from nr_junctions (%d)"
+                          % (len(index), nr_junctions))
     index = _get_multiple_index_with_check(net, "junction", index, nr_junctions)
     entries = {"pn_bar": pn_bar, "type": type, "tfluid_k": tfluid_k, "height_m": height_m, "in_service": in_service,
                "name": name}
